@@ -184,9 +184,13 @@ impl ServerState {
         let rx = self.cb_rx.clone();
         let last_compilation_state = self.last_compilation_state.clone();
         std::thread::spawn(move || {
+            #[cfg(fuellabs_sway_verif)]
+            sway_utils::verif::step("W.loop", "");
             while let Ok(msg) = rx.recv() {
                 match msg {
                     TaskMessage::CompilationContext(ctx) => {
+                        #[cfg(fuellabs_sway_verif)]
+                        sway_utils::verif::step("W.recv", &format!("\"version\":{}", ctx.version.unwrap_or(-1)));
                         let uri = &ctx.uri;
                         let path = uri.to_file_path().unwrap();
                         let mut engines_clone = ctx.engines.read().clone();
@@ -213,6 +217,8 @@ impl ServerState {
                         }
 
                         // Set the is_compiling flag to true so that the wait_for_parsing function knows that we are compiling
+                        #[cfg(fuellabs_sway_verif)]
+                        sway_utils::verif::step("W.setCompiling", "");
                         is_compiling.store(true, Ordering::SeqCst);
                         match session::parse_project(
                             uri,
@@ -256,14 +262,25 @@ impl ServerState {
                         }
 
                         // Reset the flags to false
+                        #[cfg(fuellabs_sway_verif)]
+                        sway_utils::verif::step(
+                            "W.clearCompiling",
+                            &format!("\"last\":\"{:?}\"", *last_compilation_state.read()),
+                        );
                         is_compiling.store(false, Ordering::SeqCst);
+                        #[cfg(fuellabs_sway_verif)]
+                        sway_utils::verif::step("W.clearRetrigger", "");
                         retrigger_compilation.store(false, Ordering::SeqCst);
 
                         // Make sure there isn't any pending compilation work
+                        #[cfg(fuellabs_sway_verif)]
+                        sway_utils::verif::step("W.isEmpty", "");
                         if rx.is_empty() {
                             // finished compilation, notify waiters
                             finished_compilation.notify_waiters();
                         }
+                        #[cfg(fuellabs_sway_verif)]
+                        sway_utils::verif::step("W.loop", "");
                     }
                     TaskMessage::Terminate => {
                         // If we receive a terminate message, we need to exit the thread
@@ -306,16 +323,33 @@ impl ServerState {
         loop {
             // Check both the is_compiling flag and the last_compilation_state.
             // Wait if is_compiling is true or if the last_compilation_state is Uninitialized.
+            #[cfg(fuellabs_sway_verif)]
+            sway_utils::verif::step("T.check", "");
             if !self.is_compiling.load(Ordering::SeqCst)
                 && *self.last_compilation_state.read() != LastCompilationState::Uninitialized
             {
+                #[cfg(fuellabs_sway_verif)]
+                sway_utils::verif::step("T.checkEmpty", "");
                 // compilation is finished, lets check if there are pending compilation requests.
                 if self.cb_rx.is_empty() {
                     // no pending compilation work, safe to break.
+                    #[cfg(fuellabs_sway_verif)]
+                    sway_utils::verif::step("T.return", "");
                     break;
                 }
             }
             // We are still compiling, lets wait to be notified.
+            #[cfg(fuellabs_sway_verif)]
+            {
+                // Same future, split so that its creation and its completion are separate steps.
+                sway_utils::verif::step("T.create", "");
+                let notified = self.finished_compilation.notified();
+                sway_utils::verif::step("T.await", "");
+                notified.await;
+                sway_utils::verif::step("T.woke", "");
+                continue;
+            }
+            #[cfg(not(fuellabs_sway_verif))]
             self.finished_compilation.notified().await;
         }
     }
